@@ -968,3 +968,219 @@ Proof.
   cbn [create_ibb_digest map]. rewrite Ha. unfold get_ibbs_digest.
   rewrite (alg_roundtrips_supported _ _ Ha), Hp. cbn [bind]. rewrite (IH Hp). reflexivity.
 Qed.
+
+(** ** stitching on an anchored layout: the code's offsets are the property's offsets *)
+
+Definition is_target_type (e : fit_entry) : bool :=
+  (fe_type e =? T_BPM) || (fe_type e =? T_KM) || (fe_type e =? T_SACM).
+
+(** the entry's address lies in the window mapped onto the image; 24-bit size field *)
+Definition entry_in_window (img_len : Z) (e : fit_entry) : Prop :=
+  BASE - img_len <= fe_addr e < BASE /\ 0 <= fe_size e < 16777216.
+
+Definition entries_in_window (img_len : Z) (es : list fit_entry) : Prop :=
+  Forall (fun e => is_target_type e = true -> entry_in_window img_len e) es.
+
+Lemma new_blob_target_type e acm bpm km : new_blob e acm bpm km <> [] -> is_target_type e = true.
+Proof.
+  unfold new_blob, is_target_type.
+  destruct (fe_type e =? T_BPM); [reflexivity|]. destruct (fe_type e =? T_KM); [reflexivity|].
+  destruct (fe_type e =? T_SACM); [reflexivity|]. intros H. contradiction H. reflexivity.
+Qed.
+
+Fixpoint spec_targets (re : Z) (es : list fit_entry) (acm bpm km : list Z) : list (Z * list Z) :=
+  match es with
+  | [] => []
+  | e :: t => match new_blob e acm bpm km with
+              | [] => spec_targets re t acm bpm km
+              | _ :: _ => (spec_offset re (fe_addr e), new_blob e acm bpm km) :: spec_targets re t acm bpm km
+              end
+  end.
+
+Lemma targets_anchored l re acm bpm km : forall es,
+  anchored l re ->
+  Forall (fun e => is_target_type e = true -> BASE - re <= fe_addr e < BASE) es ->
+  targets l es acm bpm km = spec_targets re es acm bpm km.
+Proof.
+  intros es Ha. induction 1 as [|e t He Ht IH]; [reflexivity|].
+  cbn [targets spec_targets]. unfold target.
+  destruct (new_blob e acm bpm km) as [|b n] eqn:Hn; [exact IH|].
+  assert (Hw : BASE - re <= fe_addr e < BASE).
+  { apply He. apply (new_blob_target_type e acm bpm km). rewrite Hn. discriminate. }
+  rewrite (calc_offset_anchored _ _ _ Ha Hw). rewrite IH. reflexivity.
+Qed.
+
+Lemma In_spec_targets re acm bpm km e : forall es,
+  In e es -> new_blob e acm bpm km <> [] ->
+  In (spec_offset re (fe_addr e), new_blob e acm bpm km) (spec_targets re es acm bpm km).
+Proof.
+  induction es as [|x t IH]; intros Hin Hn; [contradiction|].
+  cbn [spec_targets]. destruct Hin as [->|Hin].
+  - destruct (new_blob e acm bpm km) as [|b n] eqn:E; [contradiction Hn; reflexivity|]. left. reflexivity.
+  - destruct (new_blob x acm bpm km); [|right]; apply IH; assumption.
+Qed.
+
+Lemma anchored_len_lt l re : anchored l re -> re < W32.
+Proof. destruct l; cbn [anchored]; try contradiction; intros (? & ? & ? & ?); assumption. Qed.
+
+(** the region of the image a FIT entry designates for the blob that is offered for it:
+    KM / BPM: [fe_size] bytes at the entry's address; startup ACM: as many bytes as the new
+    ACM has (the code requires this to be the size the old ACM's header declares) *)
+Definition entry_span (e : fit_entry) (acm bpm km : list Z) : Z :=
+  if fe_type e =? T_BPM then (match bpm with [] => 0 | _ :: _ => fe_size e end)
+  else if fe_type e =? T_KM then (match km with [] => 0 | _ :: _ => fe_size e end)
+  else if fe_type e =? T_SACM then zlen acm else 0.
+
+Definition in_entry_region (re : Z) (e : fit_entry) (acm bpm km : list Z) (i : Z) : Prop :=
+  spec_offset re (fe_addr e) <= i < spec_offset re (fe_addr e) + entry_span e acm bpm km.
+
+Lemma write_at_zn_outside f off d i :
+  0 <= off -> 0 <= i -> ~ (off <= i < off + zlen d) -> zn (write_at f off d) i = zn f i.
+Proof.
+  intros Ho Hi Hn. rewrite write_at_zn by assumption.
+  destruct (off <=? i) eqn:H1; [|reflexivity]. destruct (i <? off + zlen d) eqn:H2; [|reflexivity].
+  apply Z.leb_le in H1. apply Z.ltb_lt in H2. exfalso. apply Hn. split; assumption.
+Qed.
+
+Lemma stitch_manifest_step l orig file e new file' ok :
+  anchored l (zlen orig) -> entry_in_window (zlen orig) e ->
+  stitch_manifest l orig file e new = (file', ok) ->
+  file' = file \/
+  (new <> [] /\ let off := spec_offset (zlen orig) (fe_addr e) in
+   file' = write_at file off new /\ 0 <= off /\ off + zlen new <= off + fe_size e /\ off + fe_size e <= zlen orig).
+Proof.
+  intros Ha [Hw Hs] E. destruct ok.
+  - destruct new as [|b t]; [cbn [stitch_manifest] in E; left; inversion E; reflexivity|].
+    right. split; [discriminate|].
+    pose proof (anchored_len_lt _ _ Ha) as Hl.
+    eapply stitch_manifest_within_entry; try eassumption; [unfold W32, W64, BASE in *; lia | discriminate].
+  - left. apply stitch_manifest_cases in E. destruct E as [E|(Hc & _)]; [assumption|discriminate].
+Qed.
+
+Theorem stitch_acm_within_entry l re file e new file' :
+  anchored l re -> BASE - re <= fe_addr e < BASE -> new <> [] ->
+  stitch_acm l file e new = (file', true) ->
+  let off := spec_offset re (fe_addr e) in
+  file' = write_at file off new /\ 0 <= off < zlen file /\
+  zlen new = acm_size (read_padded file off 32) /\ zlen new <> 0.
+Proof.
+  intros Ha Hw Hn. unfold stitch_acm. destruct new as [|b t]; [contradiction Hn; reflexivity|].
+  rewrite (calc_offset_anchored _ _ _ Ha Hw).
+  destruct (W63 <=? spec_offset re (fe_addr e)); [discriminate|].
+  destruct (zlen file <=? spec_offset re (fe_addr e)) eqn:H1; [discriminate|].
+  destruct (acm_size (read_padded file (spec_offset re (fe_addr e)) 32) =? 0) eqn:H2; [discriminate|].
+  destruct (zlen (b :: t) =? acm_size (read_padded file (spec_offset re (fe_addr e)) 32)) eqn:H3;
+    cbn [negb]; [|discriminate].
+  intros E. cbn zeta. apply Z.leb_gt in H1. apply Z.eqb_neq in H2. apply Z.eqb_eq in H3.
+  split; [inversion E; reflexivity|]. split; [unfold spec_offset in *; lia|]. split; [assumption|].
+  rewrite H3. assumption.
+Qed.
+
+Lemma stitch_acm_step l re file e new file' ok :
+  anchored l re -> BASE - re <= fe_addr e < BASE ->
+  stitch_acm l file e new = (file', ok) ->
+  file' = file \/
+  (new <> [] /\ let off := spec_offset re (fe_addr e) in file' = write_at file off new /\ 0 <= off).
+Proof.
+  intros Ha Hw E. apply stitch_acm_cases in E. destruct E as [E|(_ & Hn & off & Hc & H0 & Hf)]; [left; assumption|].
+  right. split; [assumption|]. cbn zeta.
+  rewrite (calc_offset_anchored _ _ _ Ha Hw) in Hc. apply Ok_inj' in Hc. rewrite Hc. split; assumption.
+Qed.
+
+(** one step: a byte outside the entry's region keeps its value; the file keeps its length
+    when the region lies inside it *)
+Lemma stitch_entry_step_region l orig file e acm bpm km file' ok :
+  anchored l (zlen orig) -> (is_target_type e = true -> entry_in_window (zlen orig) e) ->
+  stitch_entry l orig file e acm bpm km = (file', ok) ->
+  file' = file \/
+  (exists new, new <> [] /\ let off := spec_offset (zlen orig) (fe_addr e) in
+     file' = write_at file off new /\ 0 <= off /\ off + zlen new <= off + entry_span e acm bpm km /\
+     (fe_type e <> T_SACM -> off + entry_span e acm bpm km <= zlen orig)).
+Proof.
+  intros Ha Hw. unfold stitch_entry, entry_span, is_target_type in *.
+  destruct (fe_type e =? T_BPM) eqn:T1.
+  { intros E. apply stitch_manifest_step in E; [|assumption|apply Hw; reflexivity].
+    destruct E as [E|(Hn & E)]; [left; assumption|]. right. exists bpm. split; [assumption|].
+    cbn zeta in *. destruct bpm; [contradiction Hn; reflexivity|]. destruct E as (E1 & E2 & E3 & E4).
+    repeat split; assumption || (intros _; assumption). }
+  destruct (fe_type e =? T_KM) eqn:T2.
+  { intros E. apply stitch_manifest_step in E; [|assumption|apply Hw; reflexivity].
+    destruct E as [E|(Hn & E)]; [left; assumption|]. right. exists km. split; [assumption|].
+    cbn zeta in *. destruct km; [contradiction Hn; reflexivity|]. destruct E as (E1 & E2 & E3 & E4).
+    repeat split; assumption || (intros _; assumption). }
+  destruct (fe_type e =? T_SACM) eqn:T3.
+  { intros E. apply (stitch_acm_step l (zlen orig)) in E; [|assumption|apply Hw; reflexivity].
+    destruct E as [E|(Hn & E)]; [left; assumption|]. right. exists acm. split; [assumption|].
+    cbn zeta in *. destruct E as (E1 & E2). repeat split; try assumption; [lia|].
+    intros Hne. apply Z.eqb_eq in T3. contradiction. }
+  intros E. left. inversion E. reflexivity.
+Qed.
+
+(** frame, in the property's vocabulary: a byte outside the regions of the targeted FIT
+    entries keeps its value (whether the call succeeds or fails) *)
+Theorem stitch_loop_frame_region l orig acm bpm km i : forall es file,
+  anchored l (zlen orig) -> entries_in_window (zlen orig) es -> 0 <= i ->
+  (forall e, In e es -> ~ in_entry_region (zlen orig) e acm bpm km i) ->
+  zn (fst (stitch_loop l orig file es acm bpm km)) i = zn file i.
+Proof.
+  induction es as [|e t IH]; intros file Ha Hw Hi Hout; [reflexivity|].
+  cbn [stitch_loop]. destruct (stitch_entry l orig file e acm bpm km) as [file' ok] eqn:He.
+  inversion Hw as [|x xs Hwe Hwt]; subst.
+  assert (Hstep : zn file' i = zn file i).
+  { apply stitch_entry_step_region in He; [|assumption|assumption].
+    destruct He as [->|(new & Hn & Hf & H0 & H1 & _)]; [reflexivity|]. cbn zeta in *. rewrite Hf.
+    apply write_at_zn_outside; try assumption.
+    specialize (Hout e (or_introl eq_refl)). unfold in_entry_region in Hout. lia. }
+  destruct ok; [|cbn [fst]; assumption].
+  rewrite IH; try assumption. intros e' Hin. apply Hout. right. assumption.
+Qed.
+
+Theorem stitch_frame_region l img fit acm bpm km i :
+  anchored l (zlen img) -> entries_in_window (zlen img) fit -> 0 <= i ->
+  (forall e, In e fit -> ~ in_entry_region (zlen img) e acm bpm km i) ->
+  zn (fst (stitch l img (Some fit) acm bpm km)) i = zn img i.
+Proof. intros. cbn [stitch]. apply stitch_loop_frame_region; assumption. Qed.
+
+Theorem stitch_loop_length_region l orig acm bpm km : forall es file,
+  anchored l (zlen orig) -> entries_in_window (zlen orig) es -> zlen file = zlen orig ->
+  Forall (fun e => fe_type e = T_SACM -> spec_offset (zlen orig) (fe_addr e) + zlen acm <= zlen orig) es ->
+  zlen (fst (stitch_loop l orig file es acm bpm km)) = zlen orig.
+Proof.
+  induction es as [|e t IH]; intros file Ha Hw Hl Hacm; [assumption|].
+  cbn [stitch_loop]. destruct (stitch_entry l orig file e acm bpm km) as [file' ok] eqn:He.
+  inversion Hw as [|x xs Hwe Hwt]; subst. inversion Hacm as [|y ys Hae Hat]; subst.
+  assert (Hstep : zlen file' = zlen orig).
+  { apply stitch_entry_step_region in He; [|assumption|assumption].
+    destruct He as [->|(new & Hn & Hf & H0 & H1 & H2)]; [assumption|]. cbn zeta in *. rewrite Hf.
+    rewrite write_at_zlen by assumption.
+    assert (spec_offset (zlen orig) (fe_addr e) + entry_span e acm bpm km <= zlen orig).
+    { destruct (Z.eq_dec (fe_type e) T_SACM) as [Ht|Ht]; [|apply H2; assumption].
+      specialize (Hae Ht). unfold entry_span. rewrite Ht. cbn. assumption. }
+    lia. }
+  destruct ok; [|cbn [fst]; assumption].
+  apply IH; assumption.
+Qed.
+
+Theorem stitch_length_region l img fit acm bpm km :
+  anchored l (zlen img) -> entries_in_window (zlen img) fit ->
+  Forall (fun e => fe_type e = T_SACM -> spec_offset (zlen img) (fe_addr e) + zlen acm <= zlen img) fit ->
+  zlen (fst (stitch l img (Some fit) acm bpm km)) = zlen img.
+Proof. intros. cbn [stitch]. apply stitch_loop_length_region; try assumption. reflexivity. Qed.
+
+(** on success every targeted entry reads back as the new blob *)
+Theorem stitch_reread_region l img fit acm bpm km file' :
+  anchored l (zlen img) -> entries_in_window (zlen img) fit ->
+  stitch l img (Some fit) acm bpm km = (file', true) ->
+  disjoint_regions (spec_targets (zlen img) fit acm bpm km) ->
+  forall e, In e fit ->
+  forall k, 0 <= k < zlen (new_blob e acm bpm km) ->
+  zn file' (spec_offset (zlen img) (fe_addr e) + k) = zn (new_blob e acm bpm km) k.
+Proof.
+  intros Ha Hw Hs Hd e Hin k Hk. cbn [stitch] in Hs.
+  assert (Hn : new_blob e acm bpm km <> []).
+  { intros E. rewrite E in Hk. cbn in Hk. lia. }
+  assert (Hw' : Forall (fun e => is_target_type e = true -> BASE - zlen img <= fe_addr e < BASE) fit).
+  { eapply Forall_impl; [|exact Hw]. cbn beta. intros x Hx Ht. destruct (Hx Ht). assumption. }
+  pose proof (targets_anchored l (zlen img) acm bpm km fit Ha Hw') as Ht.
+  eapply stitch_loop_reread; [exact Hs | rewrite Ht; exact Hd | rewrite Ht; apply In_spec_targets; assumption | exact Hk].
+Qed.
